@@ -16,6 +16,7 @@ from typing import Dict, List, Optional
 
 from .absint import (AClass, ADict, AFunc, AList, AObj, ASet, AbsVal, BoundBuiltin, Ctx, ExcVal, Frame, Interp,
                      LoopBound, Raised, Ret, Unknown, Unsupported, explore, new_interp)
+from .model import own_nodes as _own_nodes
 from .model import AnalysisError, ClassInfo, FuncInfo, Program, own_nodes
 from .splitdom import BibStr, LineSum, LineV, Mark, NewlineCount, Off, Slice
 from .splitter_ref import LEN, Ref, end, start
@@ -49,6 +50,15 @@ def configure(program: Program):
     if _CONFIGURED_FOR is program:
         return
     cls = program.cls("splitter", "Splitter")
+
+    def own_nodes(fnode):      # annotated assignments count as assignments
+        for n in _own_nodes(fnode):
+            if isinstance(n, ast.AnnAssign) and n.value is not None:
+                m = ast.Assign(targets=[n.target], value=n.value)
+                ast.copy_location(m, n)
+                yield m
+            else:
+                yield n
     # iterator attribute: self.X = <...>.finditer(...)
     it_attr = None
     for f in cls.methods.values():
